@@ -114,3 +114,25 @@ package cmd
 //@   ensures nil-section-rejected: c == nil ==> err != nil
 //@   ensures accepted-is-serviceable: err == nil ==> (c.Type == "simple" || c.Type == "ecs") && c.Size >= 0 &&
 //@             (c.Type == "ecs" && c.Size > 0 ==> c.ECSSize > 0) && c.TTLOverride != nil && c.TTLOverride.Min.Duration > 0
+
+// connLimitConfig.toInternal panics when connlimiter.New rejects the
+// thresholds; validation makes that unreachable.
+//@ func (*connLimitConfig).toInternal
+//@   property C20
+//@   requires c != nil && logger != nil && (c.Enabled ==> c.Stop >= 1 && c.Resume <= c.Stop)
+//@   ensures c.Enabled ==> l != nil
+
+// An accepted rate-limit section, converted by toInternal, satisfies the
+// precondition of ratelimit.NewBackoff (BackoffPre, declared with the limiter):
+// no division by zero in CountResponses, no panic in subnetKey.
+//
+//@ lemma validated-ratelimit-satisfies-NewBackoff
+//@   property C20
+//@   forall c *rateLimitConfig, conf *ratelimit.BackoffConfig
+//@   requires RLOK(c) && conf != nil && conf.Allowlist != nil
+//@   requires conf.ResponseSizeEstimate == c.ResponseSizeEstimate && conf.Count == c.BackoffCount &&
+//@            conf.IPv4Count == c.IPv4.Count && conf.IPv4SubnetKeyLen == c.IPv4.SubnetKeyLen &&
+//@            conf.IPv6Count == c.IPv6.Count && conf.IPv6SubnetKeyLen == c.IPv6.SubnetKeyLen
+//@   ensures prefix-lengths-fit: 0 <= conf.IPv4SubnetKeyLen && conf.IPv4SubnetKeyLen <= 32 && 0 <= conf.IPv6SubnetKeyLen && conf.IPv6SubnetKeyLen <= 128
+//@   ensures no-division-by-zero: conf.ResponseSizeEstimate > 0
+//@   ensures counts-fit-a-ring: conf.IPv4Count < 9223372036854775807 && conf.IPv6Count < 9223372036854775807
